@@ -64,6 +64,41 @@ Theorem C19_subtraces_count_children : forall addr l, flat_tree addr l ->
 Proof. exact (proj1 shape_children). Qed.
 Print Assumptions C19_subtraces_count_children.
 
+From Verif Require Import Model.Exec Proofs.Exec_generic Proofs.Exec_stream.
+(** WHAT THE EVM FEEDS THE TRACERS IS SUCH A STREAM.  The callbacks the frame logic (Model/Exec.v) makes to a debug tracer
+    that is also an Aspect logger — for every instruction semantics that makes no frame callbacks of its own, every entry
+    point below the top level, call tree, Aspect behaviour, provider, failure and fuel — are the event stream of a forest of
+    well-formed call trees: each CALL frame with the Aspect executions of its pre join point, then the calls its code
+    makes, then those of its post join point ([PS] is the conjunction over the seven entry points). *)
+Theorem C19_frames_emit_tree_streams : forall W M HT can_transfer transfer balance_of exists_acct create_account code_of collides get_nonce set_nonce acl_add set_code touch is_homestead is_eip158 is_berlin is_london max_code_size is_precompile precompile local_step init_machine keccak artela jp_on asp_logger bound aspect,
+  (forall d fc m w, forallb silent (step_events (local_step d fc m w)) = true) ->
+  forall fuel, PS W M HT can_transfer transfer balance_of exists_acct create_account code_of collides get_nonce set_nonce acl_add set_code touch is_homestead is_eip158 is_berlin is_london max_code_size is_precompile precompile local_step init_machine keccak artela jp_on asp_logger bound aspect fuel.
+Proof. exact frames_emit_tree_streams. Qed.
+Print Assumptions C19_frames_emit_tree_streams.
+
+(** ... so the call tracer, fed the callbacks of any nested CALL of a real execution while the enclosing frame is open,
+    appends to that frame's calls exactly the frames of the execution's trees (composition with C19_call_tracer_exact's
+    lemmas): what the tracer reports IS the tree of what ran. *)
+Theorem C19_tracer_reports_what_ran : forall W M HT can_transfer transfer balance_of exists_acct create_account code_of collides get_nonce set_nonce acl_add set_code touch is_homestead is_eip158 is_berlin is_london max_code_size is_precompile precompile local_step init_machine keccak artela jp_on asp_logger bound aspect,
+  (forall d fc m w, forallb silent (step_events (local_step d fc m w)) = true) ->
+  forall fuel d hint ps caller addr input gas value s r s',
+  do_call W M HT can_transfer transfer balance_of exists_acct create_account code_of collides get_nonce set_nonce acl_add set_code touch is_homestead is_eip158 is_berlin is_london max_code_size is_precompile precompile local_step init_machine keccak artela jp_on true asp_logger bound aspect fuel (S d) hint ps caller addr input gas value s = Some (r, s') ->
+  exists forest ev, xe s' = xe s ++ ev /\
+    forall f rest g b k,
+      ct_run false (st (of f 0 :: rest) g b) (trs ev ++ k) =
+      ct_run false (st (of (cf_set_calls f (cf_calls f ++ map frame_c forest)) 0 :: rest) g b) k.
+Proof. exact traced_frames. Qed.
+Print Assumptions C19_tracer_reports_what_ran.
+
+From Verif Require Import Model.ScriptInst.
+(** non-vacuity of the side condition: the instance run against the code (recorded scripts) emits only step events *)
+Example C19_side_condition_inhabited : forall d fc m w, forallb silent (step_events (s_step d fc m w)) = true.
+Proof.
+  intros d fc m w. unfold s_step. destruct (m_acts m) as [|a rest]; [reflexivity|].
+  destruct a as [pc op cost eff|pc op cost k to input cg value sub|pc op cost typ code cg value addr sub|pc op cost stack mem stor|pc op cost ret err eff]; try reflexivity.
+  destruct err as [[]|]; reflexivity.
+Qed.
+
 (** non-vacuity: a transaction with two Aspects on one join point, a call made from inside an Aspect whose own
     join point runs an Aspect of the same type, and a precompile call, satisfies the hypotheses and flattens *)
 Definition ex_ci (typ to : N) (v : option N) : callinfo :=
